@@ -34,14 +34,19 @@ pub mod de {
     pub trait DeserializeSeed<'de>: Sized {
         type Value;
         spec fn start_ok(&self, s: Seq<u8>, idx: int) -> bool;
+        /// "this seed, started at idx, fails" (uninterpreted per seed): lets the access machine's contract say that
+        /// at a grammar-prescribed element position the only possible error is the element's own
+        spec fn fails_at(&self, s: Seq<u8>, idx: int) -> bool;
         fn deserialize<R: Reader<'de>>(self, d: &mut Deserializer<R>) -> (r: Result<Self::Value>)
             requires old(d).parser.pinv(), self.start_ok(old(d).parser.read.data(), old(d).parser.read.idx() as int),
-            ensures final(d).parser.pinv(), final(d).parser.same_doc(&old(d).parser);
+            ensures final(d).parser.pinv(), final(d).parser.same_doc(&old(d).parser),
+                r.is_err() ==> self.fails_at(old(d).parser.read.data(), old(d).parser.read.idx() as int);
         // substitution target for `seed.deserialize(MapKey { de: &mut *self.de }).map(Some)` (key position: reader
         // just after the opening quote)
         fn deserialize_mapkey<R: Reader<'de>>(self, d: &mut Deserializer<R>) -> (r: Result<Option<Self::Value>>)
             requires old(d).parser.pinv(), self.start_ok(old(d).parser.read.data(), old(d).parser.read.idx() as int),
-            ensures final(d).parser.pinv(), final(d).parser.same_doc(&old(d).parser), r.is_ok() ==> r.unwrap().is_some();
+            ensures final(d).parser.pinv(), final(d).parser.same_doc(&old(d).parser), r.is_ok() ==> r.unwrap().is_some(),
+                r.is_err() ==> self.fails_at(old(d).parser.read.data(), old(d).parser.read.idx() as int);
     }
 }
 
@@ -97,6 +102,9 @@ impl<'de, 'a, R: Reader<'de> + 'a> SeqAccess<'a, R> {
                 &&& ((p < s.len() && s[p] == 0x5d) ==> res.is_ok() && res.unwrap().is_none() && final(self).de.parser.read.idx() == p)
                 // no element position (missing comma, end of input): an error, never an element
                 &&& ((!(p < s.len() && s[p] == 0x5d) && seq_elem_start(s, old(self).de.parser.read.idx() as int, old(self).first).is_none()) ==> res.is_err())
+                // completeness: where the grammar has an element, the only error is the element deserializer's own
+                &&& (seq_elem_start(s, old(self).de.parser.read.idx() as int, old(self).first).is_some() && res.is_err()
+                        ==> seed.fails_at(s, seq_elem_start(s, old(self).de.parser.read.idx() as int, old(self).first).unwrap()))
                 &&& (res.is_ok() && res.unwrap().is_some() ==> !final(self).first)
             }),
 //@before /match \(?self\.de\.parser\.skip_space_peek\(\)/
@@ -119,6 +127,8 @@ impl<'de, 'a, R: Reader<'de> + 'a> MapAccess<'a, R> {
                 &&& ((p < s.len() && s[p] == 0x7d) ==> res.is_ok() && res.unwrap().is_none() && final(self).de.parser.read.idx() == p)
                 // anything but `}` or a correctly separated `"`: an error (trailing comma, missing comma, junk, EOF)
                 &&& ((!(p < s.len() && s[p] == 0x7d) && map_key_start(s, old(self).de.parser.read.idx() as int, old(self).first).is_none()) ==> res.is_err())
+                &&& (map_key_start(s, old(self).de.parser.read.idx() as int, old(self).first).is_some() && res.is_err()
+                        ==> seed.fails_at(s, map_key_start(s, old(self).de.parser.read.idx() as int, old(self).first).unwrap()))
                 &&& (res.is_ok() && res.unwrap().is_some() ==> !final(self).first)
             }),
 //@before /let peek = match \(?self\.de\.parser\.skip_space_peek\(\)/
@@ -140,7 +150,8 @@ impl<'de, 'a, R: Reader<'de> + 'a> MapAccess<'a, R> {
             ({
                 let s = old(self).de.parser.read.data();
                 let c = ws_end(s, old(self).de.parser.read.idx() as int);
-                !(c < s.len() && s[c] == 0x3a) ==> res.is_err()
+                &&& (!(c < s.len() && s[c] == 0x3a) ==> res.is_err())
+                &&& ((c < s.len() && s[c] == 0x3a) && res.is_err() ==> seed.fails_at(s, c + 1))
             }),
 //@end
 }
